@@ -1187,3 +1187,44 @@ add("m05t", ["C05", "C02", "C04"], (P, "                if done_job.raised_excep
 add("m04u", ["C04", "C05"], (S, "                if exc is not None:\n", "                if exc:\n"), rules=["R04.8", "R05.8"], note="F14 reverted (nested form)")
 add("b05t", ["C05", "C02", "C04", "C06"], (P, "                if done_job.raised_exception() is not None:\n",
                                          "                failure = done_job.raised_exception()\n                if failure is not None:\n"), expect='silent')
+
+# ------------------------------------------------------------------ rules added after the fourth seeding round
+add("m10y", ["C10", "C01", "C09"], (S, "        AbstractJob.__init__(self, **kwds)", "        kwds.pop('forever', None)\n        AbstractJob.__init__(self, **kwds)"),
+    rules=["R10.9", "R01.7", "R09.7"], note="a keyword popped from **kwds before it is handed on")
+add("m04v", ["C04"], [(P, """        # empty schedulers are fine too
+        if not self.jobs:
+            return True
+
+""", ""), (P, """        # create a Window no matter what; it will know what to do
+        # also if jobs_window is None
+        window = Window(self.jobs_window)
+""", """        # empty schedulers are fine too
+        if not self.jobs:
+            return True
+        # create a Window no matter what; it will know what to do
+        # also if jobs_window is None
+        window = Window(self.jobs_window)
+""")], rules=["R04.1"], note="seed C04-R4A")
+add("m11v", ["C11"], (P, "        window = Window(self.jobs_window)\n", "        window = Window(self.jobs_window)\n        if self.verbose:\n            asyncio.create_task(window.monitor())\n"),
+    rules=["R11.1", "R11.2"], note="seed C11-R4C: a task no exit path cancels or awaits")
+add("m14v", ["C14", "C11", "C10"], (S, """                [job._task for job in self.jobs if job._task is not None])
+            raise""", """                [job._task for job in self.jobs if job._task is not None])
+            if self.critical:
+                raise
+            pure = False"""), rules=["R14.4", "R11.5", "R10.11"], note="seed C14-R4B")
+add("m18v", ["C18"], (P, "        self.jobs &= set(remains)\n", "        if self.verbose:\n            print('dropping', [j for j in self.jobs if j not in remains])\n        self.jobs &= set(remains)\n"),
+    rules=["R18.6"], note="seed C18-R4C")
+add("b18v", ["C18"], (P, "        self.jobs &= set(remains)\n", "        remains = set(remains)\n        if self.verbose:\n            print('dropping', [j for j in self.jobs if j not in remains])\n        self.jobs &= remains\n"),
+    expect='silent')
+add("m20v", ["C20"], (J, """        attempt = self.label
+        if attempt is not None:
+            return attempt
+""", """        attempt = self.label
+        if attempt is not None:
+            return attempt.strip()
+"""), rules=["R20.9"])
+add("m19w", ["C19", "C10"], [(Q, "        self._pending_required = []\n        if self.jobs:", "        if self.jobs:"),
+                             (Q, "    def __init__(self, *sequences_or_jobs, required=None, scheduler=None):", "    _pending_required: list = []\n\n    def __init__(self, *sequences_or_jobs, required=None, scheduler=None):")],
+    rules=["R19.10", "R10.10"], note="seed C19-R4C")
+add("m08z", ["C08", "C11", "C05"], (S, "                [job._task for job in self.jobs if job._task is not None])", "                (job._task for job in self.jobs if job._task is not None))"),
+    rules=["R08.5", "R11.2", "R05.5"], note="seed C08-R4C: a generator expression is exhausted by the cancel loop")
